@@ -71,7 +71,7 @@ func newChainStore(chain *vh.Chain, tail, head uint64, opts ...store.Option) (*s
 	}
 	ctx, cancel := vctx(time.Hour)
 	defer cancel()
-	if err := st.Start(ctx); err != nil {
+	if err := startScoped(st.Start); err != nil {
 		return nil, nil, err
 	}
 	if head >= tail && tail >= 1 {
@@ -261,7 +261,7 @@ func newClient(h host.Host, trusted []peer.ID, chainID string, opts ...p2p.Optio
 	if err != nil {
 		return nil, err
 	}
-	if err := ex.Start(context.Background()); err != nil {
+	if err := startScoped(ex.Start); err != nil {
 		return nil, err
 	}
 	// let the peer tracker subscribe to connectedness events before anybody connects
